@@ -633,10 +633,28 @@ func c11Autoconf(c *Ctx) {
 				}
 			}
 		}
+		// an error that is reported must have been tested against both tolerated classes on this path (a test
+		// that is skipped, e.g. behind another condition, lets a tolerated error through as fatal)
+		if class == "other" {
+			negPerm, negNotExist := false, false
+			for _, a := range p.Atoms {
+				if !a.Pos && a.Cond.Op == an.OpCall && a.Cond.Fn != nil && a.Cond.Fn.String() == "errors.Is" && len(a.Cond.Args) == 2 && a.Cond.Args[1].Op == an.OpGlobal {
+					switch a.Cond.Args[1].Name {
+					case "os.ErrPermission":
+						negPerm = true
+					case "os.ErrNotExist":
+						negNotExist = true
+					}
+				}
+			}
+			if !(negPerm && negNotExist) {
+				class = fmt.Sprintf("other(untested: permission=%v, not-exist=%v)", !negPerm, !negNotExist)
+			}
+		}
 		wantNil := class == "nil" || class == "permission" || class == "not-exist"
 		gotNil := p.Ret != nil && len(p.Results) == 1 && exprIsNil(p.Results[0])
 		okWrap := gotNil || (p.Ret != nil && p.Results[0].Contains(func(e *an.Expr) bool { return exprCallIs(e, PkgSystem, "State", "SetIPv6Autoconf") }))
-		c.R.Check(okPrev && okIface && wantNil == gotNil && okWrap && !strings.HasPrefix(class, "tolerates:"), "R-C11-4", rfn+":restore-outcome@"+class, rfn, c.pos(setCall.Pos()),
+		c.R.Check(okPrev && okIface && wantNil == gotNil && okWrap && !strings.HasPrefix(class, "tolerates:") && !strings.HasPrefix(class, "other("), "R-C11-4", rfn+":restore-outcome@"+class, rfn, c.pos(setCall.Pos()),
 			fmt.Sprintf("SetIPv6Autoconf(%s, %s); on %s error returns nil=%v", iface, prev, class, gotNil),
 			"restore writes the value read by the earlier get for the same interface; nil, permission-denied and not-exist are tolerated (nil result), any other error is returned",
 			"autoconf is not restored to its previous value, or the restore error table differs")
